@@ -66,6 +66,7 @@ func compareStrings
   ensures equality-is-text-equality: strings.ToUpper(operator) == "==" || strings.ToUpper(operator) == "=" ==> result1 == nil && (result0 <==> left == right)
   ensures inequality-is-text-inequality: strings.ToUpper(operator) == "!=" || strings.ToUpper(operator) == "<>" ==> result1 == nil && (result0 <==> left != right)
   ensures like-uses-the-matcher: strings.ToUpper(operator) == "LIKE" ==> result1 == nil && (result0 <==> matchLikePattern(left, right))
+  ensures texts-are-ordered-as-texts: (strings.ToUpper(operator) == ">" ==> result1 == nil && (result0 <==> left > right)) && (strings.ToUpper(operator) == "<" ==> result1 == nil && (result0 <==> left < right)) && (strings.ToUpper(operator) == ">=" ==> result1 == nil && (result0 <==> left >= right)) && (strings.ToUpper(operator) == "<=" ==> result1 == nil && (result0 <==> left <= right))
   ensures anything-else-is-an-error: !cmpKnown(strings.ToUpper(operator)) && strings.ToUpper(operator) != "LIKE" ==> result1 != nil
 
 func compareValues
@@ -131,6 +132,8 @@ func evaluateOperatorValue
   atreturn difference: result1 == nil && result0 != nil && !leftIsNull && !rightIsNull && leftOk && rightOk && node.Value == "-" ==> result0 == boxof(leftFloat - rightFloat, float64)
   atreturn product: result1 == nil && result0 != nil && !leftIsNull && !rightIsNull && leftOk && rightOk && node.Value == "*" ==> result0 == boxof(leftFloat * rightFloat, float64)
   atreturn quotient: result1 == nil && result0 != nil && !leftIsNull && !rightIsNull && leftOk && rightOk && node.Value == "/" ==> rightFloat != 0.0 && result0 == boxof(leftFloat / rightFloat, float64)
+  atreturn a-remainder-is-never-taken-by-zero: result1 == nil && result0 != nil && !leftIsNull && !rightIsNull && leftOk && rightOk && node.Value == "%" ==> rightFloat != 0.0
+  atreturn dividing-or-taking-a-remainder-by-zero-is-an-error: !leftIsNull && !rightIsNull && leftOk && rightOk && (node.Value == "/" || node.Value == "%") && rightFloat == 0.0 && !isLogicalOperator(node.Value) && !isComparisonOperator(node.Value) ==> result1 != nil
   atreturn operands-are-converted-by-the-shared-rule: leftOk ==> leftFloat == convertToFloatSafe(left)
 
 func evaluateNodeValueWithNull
